@@ -24,7 +24,11 @@ Definition enc_dresult (r : dresult) : list Z :=
   | RRaisePy e => [3; pyerr_code e]
   end.
 
-Definition run_dispatch (c : list pconf * Z * bool * dstate * LOG) : list Z :=
-  let '(cfg, freq, hm, st, log) := c in
-  let '(rest, st', r) := dispatch LOG log_decode cfg freq hm log st in
+(* stored codes equal to the input, per decoder, as the harness observed them before the call *)
+Definition saved_of (l : list (nat * code)) (p : nat) : option code :=
+  match find (fun q => Nat.eqb (fst q) p) l with Some q => Some (snd q) | None => None end.
+
+Definition run_dispatch (c : list pconf * Z * bool * dstate * LOG * list (nat * code)) : list Z :=
+  let '(cfg, freq, hm, st, log, sv) := c in
+  let '(rest, st', r) := dispatch LOG log_decode (saved_of sv) cfg freq hm log st in
   enc_dresult r ++ enc_ocode (last_code st') ++ enc_onat (last_decoder st') ++ [Z.of_nat (length rest)].
